@@ -399,7 +399,7 @@ func c17r6(r *R) {
 	}
 	o2.Check(found, "Run does not derive its context from signal.NotifyContext")
 	for _, s := range callsIn(run, "fingerproxy.defaultProxyServer") {
-		o2.AtI(s).Check(c.Expr(callOf(s).Args[0]) == "os/signal.NotifyContext(context.Background(), &varargs[:])#0", "the proxy server gets context %s", c.Expr(callOf(s).Args[0]))
+		o2.AtI(s).Check(strings.HasPrefix(c.Expr(callOf(s).Args[0]), "os/signal.NotifyContext(context.Background(), [") && strings.HasSuffix(c.Expr(callOf(s).Args[0]), "])#0"), "the proxy server gets context %s", c.Expr(callOf(s).Args[0]))
 	}
 	dps := c.Func("", "defaultProxyServer")
 	r.need(dps != nil, "defaultProxyServer not found")
